@@ -130,6 +130,11 @@ CLAIMED = {
             "inverts once between the passes; (R5) add_in_place / mul_acc assert equal lengths before zip. Thorough tier repeats the rules on the concurrent build. "
             "The element-wise values (powers, inverses, sums) and the transposed order itself are numerical and not decided.",
             "rustc MIR of both feature configurations; field arithmetic exact (C10); rayon batches disjoint and ordered (C06)", "DESIGN.md section 4, C14"),
+    "C21": ("region analysis by the edges of is_single() / is_periodic(), symbolic reading of the callback's step argument and loop bounds, sibling comparison of apply and get_num_steps",
+            "Decides the step-set clauses: (R1) Assertion::apply invokes its callback once per region with (first_step, values[0]); (first_step + stride * i, values[0]) for i in 0..trace_length / stride; "
+            "(first_step + stride * i, values[i]) over all of values, with no truncating adapter; (R2) get_num_steps returns 1, the very bound of apply's periodic loop, and values.len() in the same regions; "
+            "(R3) both validate the trace length first and diverge on an error. Exactness of validate_trace_length and of the overlaps_with case analysis is arithmetic over run-time integers and not decided.",
+            "rustc MIR; is_single / is_periodic read as stride == NO_STRIDE / stride != NO_STRIDE && values.len() == 1", "DESIGN.md section 4, C21"),
     "C22": ("provenance of prepare_assertions' result (sorted container), field-pair analysis of `Ord for Assertion`, dominance of the overlap loop over set insertion, argument wiring of group_constraints",
             "Decides only the last sentence of the property (coefficient assignment independent of the order in which the AIR lists its assertions) through the four links it needs: "
             "(R1) prepare_assertions returns its inputs in the order of a sorted set (or sorts before returning); (R2) Ord for Assertion compares stride, first_step and column, field against "
@@ -183,7 +188,6 @@ NOT_APPLICABLE = {
     "C12": "FFT = naive evaluation is value-level; the only structural clause (schedule independence of the parallel code) is decided under C06.",
     "C13": "Polynomial helper results are numerical; no invariant of the control-flow graph implies them.",
     "C18": "Root/opening consistency and parallel = sequential build are numerical; the rejection/no-panic part is C19.",
-    "C21": "Assertion step sets / overlap detection are arithmetic case analysis over run-time integers; deciding exactness is enumeration, i.e. execution.",
 }
 
 # claimed in DESIGN.md but not built yet: listed as not applicable *for now* with that reason
